@@ -61,10 +61,33 @@ def lean_sources():
     return [p for p in LEAN_DIR.rglob('*.lean') if '.lake' not in p.parts]
 
 
-def hygiene():
-    """grep for forbidden constructs in non-comment Lean source. Returns list of hits."""
+def module_closure(mod):
+    """Project-local modules transitively imported by `mod` (e.g. PhyVerif.Props.C16)."""
+    seen, todo = [], [mod]
+    while todo:
+        m = todo.pop()
+        if m in seen:
+            continue
+        path = LEAN_DIR / (m.replace('.', '/') + '.lean')
+        if not path.exists():
+            continue
+        seen.append(m)
+        for line in strip_comments(path.read_text()).split('\n'):
+            mm = re.match(r'\s*import\s+(PhyVerif\.\S+)', line)
+            if mm:
+                todo.append(mm.group(1))
+    return seen
+
+
+def hygiene(mod=None):
+    """grep for forbidden constructs in the non-comment Lean source the property's theorems
+    depend on (all project sources when mod is None). Returns list of hits."""
+    if mod is None:
+        files = lean_sources()
+    else:
+        files = [LEAN_DIR / (m.replace('.', '/') + '.lean') for m in module_closure(mod)]
     hits = []
-    for p in lean_sources():
+    for p in files:
         for i, line in enumerate(strip_comments(p.read_text()).split('\n')):
             if FORBIDDEN.search(line):
                 hits.append('%s: %s' % (p.relative_to(LEAN_DIR), line.strip()))
@@ -110,7 +133,7 @@ def proof_step(pid, tier):
         # which theorems fail?  errors name a position; keep the log, mark all as undischarged
         res['wall_s'] = time.time() - t0
         return res
-    hits = hygiene()
+    hits = hygiene(mod)
     if hits:
         res['failed'] = ['hygiene: ' + h for h in hits]
         res['log'] = '\n'.join(hits)
